@@ -233,7 +233,6 @@ func c18LibraryIsSilent(c *Ctx) {
 	}
 }
 
-
 // discardedErrorFallback: a stated belief, cross-checked.  Where a function in reach of the library's entry points
 // discards the error of a module function f and goes on with f's value (`path, _ = expander.Expand(path)`), it believes
 // that f hands something usable back when it fails.  Today every such f returns its own argument on its error returns
@@ -372,7 +371,6 @@ func discardedErrorFallback(c *Ctx, rid string) {
 		r.OK(rid, "census", "", "no call in reach of the library's entry points discards an error while using the value")
 	}
 }
-
 
 // c13VerbatimNames (Q6): "the report shows the profile name and the validation name verbatim".  Both travel from the YAML
 // wrapper's string accessor into Profile.Name / BaseStatement.Name and from there into the generated policy.  Every value
@@ -585,7 +583,6 @@ func c13VerbatimNames(c *Ctx) {
 	}
 }
 
-
 // scalarTextGuard: a YAML node has a text (yaml.Node.Value) only when it is a scalar; a mapping, a sequence or a key
 // with nothing after it has the empty text.  The wrapper's typed accessors all read Value under `Kind == ScalarNode`
 // (and a tag test), and their callers fall back to defaults when the accessor reports an error.  The rule requires that
@@ -683,7 +680,6 @@ func scalarTextGuard(c *Ctx, rid string) {
 		r.Unknown(rid, "reads", "", "no read of yaml.Node.Value found in the module")
 	}
 }
-
 
 // c16Backtracking (X10): "any other string is rejected rather than truncated to its longest valid prefix" rests on the
 // backtracking points of the PEG interpreter that is generated into peg.go next to the grammar table.  Three of them are
@@ -793,7 +789,6 @@ func c16Backtracking(c *Ctx) {
 	}
 }
 
-
 // c18ArgumentCounts (W9): the commands choose where the output goes by the exact number of arguments (`== 4`: standard
 // output, `== 5`: the file), after a helper has checked the count against the list the command hands it.  Both sides must
 // speak about the same counts, or an invocation gets through the check, matches no output branch and ends with status 0
@@ -900,7 +895,6 @@ func c18ArgumentCounts(c *Ctx) {
 		r.Unknown("C18.W9", "count-checks", "", "no comparison of the number of arguments was found in the commands")
 	}
 }
-
 
 // c12DegenerateProfiles (J12, J13): "a non-empty message and a non-empty trace" must also hold for the profiles at the
 // edge of the language.  J12: the text handed to the message parser is known not to be empty — a non-empty constant, or
@@ -1068,7 +1062,6 @@ func c12DegenerateProfiles(c *Ctx, ridMsg, ridConn string) {
 	}
 }
 
-
 // c05MessageValues (N8): the result message is part of what must not depend on the serialisation.  A {{prefix.property}}
 // placeholder prints the property's value; the flattened document holds the values of a multi-valued property in the
 // order the document listed them and spells "no values" either as an absent key or as an empty array, so a value that is
@@ -1128,7 +1121,6 @@ func c05MessageValues(c *Ctx) {
 }
 
 var holeText = regexp.MustCompile(`‹[^›]*›`)
-
 
 // impliesScalar: the boolean function g returns true only on paths on which `<prm><suffix>.Kind == yaml.ScalarNode` held
 // (`return n.Kind == ScalarNode && n.Tag == tag` and the like).  Returns the suffix (e.g. ".data").
@@ -1208,7 +1200,6 @@ func impliesScalar(g *ssa.Function, prm *ssa.Parameter, isNodeField func(*ssa.Fi
 	return suffix, true
 }
 
-
 var (
 	indexArith   = regexp.MustCompile(`\b([A-Za-z_][A-Za-z0-9_]*)\s*:?=\s*([A-Za-z_][A-Za-z0-9_]*)\s*[-+]\s*\d+`)
 	bracketArith = regexp.MustCompile(`\[\s*[A-Za-z_][A-Za-z0-9_]*\s*[-+]\s*\d+\s*\]`)
@@ -1261,7 +1252,6 @@ func c05PositionalAccess(c *Ctx) {
 		r.OK("C05.N9", "census", "", fmt.Sprintf("%d string constants of the generator (the embedded preamble included): none computes a position from another position", n))
 	}
 }
-
 
 // allLevelRules: the preamble refers to `violation`, `warning` and `info` whenever the profile lists validations under
 // that level (it emits `default <level> = []` only for an empty level), and every validation listed under a level must
@@ -1335,7 +1325,6 @@ func allLevelRules(c *Ctx, rid string) {
 		r.Unknown(rid, "rule-set", "", "no function of the generator from a Profile to a list of rules was found")
 	}
 }
-
 
 // c08PrintCallsKept (B7): OPA erases print(...) calls before it checks for unsafe built-in functions unless print
 // statements are enabled, so `print(http.send(...))` would be accepted with the call removed.  Every rego.New of the
